@@ -29,7 +29,7 @@ def section(rng, path, kind="change", fmt=None, width=None, nonl=True):
             continue
         if kind in ("rename", "copy", "mode") and not b:
             continue
-        if kind in ("rename", "copy", "mode") or any(o != " " for o, _ in ops):
+        if kind in ("rename", "copy", "mode") or (any(o != " " for o, _ in ops) and a != b):
             break
     w = rng.choice([0, 1, 2, 3, 3]) if width is None else width
     newpath = path
